@@ -1,14 +1,103 @@
-//! bloom family: to be written (see /verif/AGENT_GUIDE.md).
-use crate::{Family, Ob, PANIC};
+//! bloom family: replays Bloom filter cases on the real crate (op codes: tools/families/bloom.py).
+//! Items are `i64`; the crate hashes them itself (the h0/h1 arguments of the case file are
+//! consumed by the model only).
+use datasketches::bloom::{BloomFilter, BloomFilterBuilder};
 
-pub struct Fam;
+use crate::{Family, Ob, ERR, PANIC};
 
-impl Family for Fam {
-    fn new(_cfg: &[i128]) -> Self {
-        Fam
+pub struct Fam {
+    slots: Vec<Option<BloomFilter>>,
+}
+
+impl Fam {
+    fn get(&self, i: i128) -> &BloomFilter {
+        self.slots[i as usize].as_ref().unwrap()
     }
 
-    fn step(&mut self, _code: i64, _a: &[i128]) -> Ob {
-        vec![PANIC]
+    fn get_mut(&mut self, i: i128) -> &mut BloomFilter {
+        self.slots[i as usize].as_mut().unwrap()
+    }
+}
+
+impl Family for Fam {
+    fn new(cfg: &[i128]) -> Self {
+        let n = cfg.first().copied().unwrap_or(8) as usize;
+        Fam { slots: vec![None; n] }
+    }
+
+    fn step(&mut self, code: i64, a: &[i128]) -> Ob {
+        let slot = a[0];
+        match code {
+            0 => {
+                let f = BloomFilterBuilder::with_size(a[1] as u64, a[2] as u16).seed(a[3] as u64).build();
+                self.slots[slot as usize] = Some(f);
+                vec![]
+            }
+            1 => {
+                self.get_mut(slot).insert(a[1] as i64);
+                vec![]
+            }
+            2 => vec![self.get(slot).contains(&(a[1] as i64)) as i128],
+            3 => vec![self.get_mut(slot).contains_and_insert(&(a[1] as i64)) as i128],
+            4 => {
+                let other = self.get(a[1]).clone();
+                self.get_mut(slot).union(&other);
+                vec![]
+            }
+            5 => {
+                let other = self.get(a[1]).clone();
+                self.get_mut(slot).intersect(&other);
+                vec![]
+            }
+            6 => {
+                self.get_mut(slot).invert();
+                vec![]
+            }
+            7 => {
+                self.get_mut(slot).reset();
+                vec![]
+            }
+            8 => vec![self.get(slot).bits_used() as i128],
+            9 => self.get(slot).serialize().iter().map(|b| *b as i128).collect(),
+            10 => {
+                let bytes = self.get(slot).serialize();
+                match BloomFilter::deserialize(&bytes) {
+                    Ok(f) => {
+                        self.slots[slot as usize] = Some(f);
+                        vec![1]
+                    }
+                    Err(_) => vec![ERR],
+                }
+            }
+            11 => {
+                let bytes: Vec<u8> = a[1..].iter().map(|b| *b as u8).collect();
+                match BloomFilter::deserialize(&bytes) {
+                    Ok(f) => {
+                        self.slots[slot as usize] = Some(f);
+                        vec![1]
+                    }
+                    Err(_) => vec![ERR],
+                }
+            }
+            12 => {
+                let f = self.get(slot);
+                vec![f.capacity() as i128, f.num_hashes() as i128, f.seed() as i128, f.is_empty() as i128]
+            }
+            13 => vec![self.get(slot).is_compatible(self.get(a[1])) as i128],
+            14 => {
+                let f = BloomFilterBuilder::with_accuracy(a[1] as u64, f64::from_bits(a[2] as u64))
+                    .seed(a[3] as u64)
+                    .build();
+                let ob = vec![f.capacity() as i128, f.num_hashes() as i128];
+                self.slots[slot as usize] = Some(f);
+                ob
+            }
+            15 => {
+                let f = self.get(slot);
+                let n = a[2..].chunks(3).filter(|c| f.contains(&(c[0] as i64))).count();
+                vec![n as i128]
+            }
+            _ => vec![PANIC],
+        }
     }
 }
